@@ -20,7 +20,7 @@ ASSUMPTIONS = ['from-scratch in-memory compile of the same specification is the 
 
 VALUES_QUICK = [7, 0, False, None, 't', True, 1, 2.5, 2.500001]
 VALUES_THOROUGH = [7, 0, 1, 2.5, 't', '', True, False, None, 1.000001, 1e-9, 7.00001, 2.500001, 0.0]
-ORIGINS = ['inmem', 'inmem-warm', 'xlsx', 'xlsx-warm', 'yml', 'json', 'pkl']
+ORIGINS = ['inmem', 'inmem-warm', 'inmem-warm2', 'xlsx', 'xlsx-warm', 'xlsx-warm2', 'yml', 'json', 'pkl']
 VALUES_SMALL = [7, None, False, 0]
 
 
@@ -66,14 +66,28 @@ class P(explore.Problem):
             m = ExcelCompiler(filename=self.path)
         else:
             m = ExcelCompiler.from_file(self.path)
-        if self.origin.endswith('-warm'):
+        assign = {}
+        if self.origin.endswith('-warm') or self.origin.endswith('-warm2'):
             # every cell built and evaluated before the explored history starts (not counted in the depth)
             for a in self.fam['cells']:
                 try:
                     m.evaluate(a)
                 except Exception:
                     pass
-        return {'m': m, 'assign': {}}
+        if self.origin.endswith('-warm2'):
+            # start from a non-initial state: one round of writes to every input and a full re-evaluation
+            for k, i in enumerate(self.fam['inputs']):
+                try:
+                    m.set_value(i, 40 + k)
+                    assign[i] = 40 + k
+                except Exception:
+                    pass
+            for a in self.fam['cells']:
+                try:
+                    m.evaluate(a)
+                except Exception:
+                    pass
+        return {'m': m, 'assign': assign}
 
     def ref(self, assign):
         key = tuple(sorted((a, W.tag(v)) for a, v in assign.items()))
@@ -191,8 +205,10 @@ def run(ctx):
         for f in fams:
             jobs.append((f, 'inmem', VALUES_SMALL, 3, 8000))
             jobs.append((f, 'inmem-warm', VALUES_QUICK, 3, 8000))
-            jobs.append((f, 'xlsx', VALUES_SMALL, 2, 8000))
+            jobs.append((f, 'inmem-warm2', VALUES_SMALL, 2, 8000))
+            jobs.append((f, 'xlsx', [7, None], 3, 8000))
             jobs.append((f, 'xlsx-warm', VALUES_SMALL, 2, 8000))
+            jobs.append((f, 'xlsx-warm2', [7, None], 2, 8000))
             for o in ('yml', 'json', 'pkl'):
                 jobs.append((f, o, VALUES_SMALL + [2.5, 2.500001], 3 if o == 'yml' else 2, 8000))
     # rotate (never sample): the seed only changes the order jobs are started in
